@@ -107,20 +107,34 @@ def main():
     vlib.build()
     rep = vlib.Report("C08")
     cov = {"states": 0, "transitions": 0, "traces_validated_against_impl": 0, "samples": [], "tlc_runs": []}
-    ds = gramcheck.derivations(QUICK if tier == "quick" else THOROUGH, cov)
-    single_site(ds, rep, cov)
-    fails, stats = gramcheck.replay(ds, "c08", vlib.SEED, {"respell": 2 if tier == "quick" else 8})
-    for d, vn, text, sig, det in fails:
-        if vn == "canonical":
-            continue
-        rep.add("%s:%s" % (vn, sig), labels=set(d["labs"]) | {"variant:" + vn},
-                detail=dict(det, canonical=gram.spell(d["toks"])[0], respelled=text),
-                replay={"canonical": gram.spell(d["toks"])[0], "respelled": text})
-    cov["derivations"] = len(ds)
+    nds = 0
+    stats = {"cases": 0, "ok": 0}
+    d0 = None
+    ss = {"single_site_words": 0, "single_site_pairs": 0, "keywords_exercised": set()}
+    for ds in gramcheck.batches(QUICK if tier == "quick" else THOROUGH, tier, cov):
+        single_site(ds, rep, cov)
+        ss["single_site_words"] = max(ss["single_site_words"], cov.get("single_site_words", 0))
+        ss["single_site_pairs"] += cov.get("single_site_pairs", 0)
+        ss["keywords_exercised"] |= set(cov.get("keywords_exercised", []))
+        fails, st = gramcheck.replay(ds, "c08", vlib.SEED, {"respell": 2 if tier == "quick" else 8})
+        stats["cases"] += st["cases"]
+        stats["ok"] += st["ok"]
+        nds += len(ds)
+        for d, vn, text, sig, det in fails:
+            if vn == "canonical":
+                continue
+            rep.add("%s:%s" % (vn, sig), labels=set(d["labs"]) | {"variant:" + vn},
+                    detail=dict(det, canonical=gram.spell(d["toks"])[0], respelled=text),
+                    replay={"canonical": gram.spell(d["toks"])[0], "respelled": text})
+        if d0 is None:
+            d0 = ds[len(ds) // 3]
+    cov["single_site_words"] = ss["single_site_words"]
+    cov["single_site_pairs"] = ss["single_site_pairs"]
+    cov["keywords_exercised"] = sorted(ss["keywords_exercised"])
+    cov["derivations"] = nds
     cov["sentences_parsed"] = stats["cases"]
     cov["traces_validated_against_impl"] = stats["cases"] + cov.get("single_site_pairs", 0)
     rng = random.Random(1)
-    d0 = ds[len(ds) // 3]
     cov["samples"].append({"canonical": gram.spell(d0["toks"])[0], "respelled": gram.spell(d0["toks"], rng, trivia=True, case=True)[0]})
     cov["exhaustive"] = False
     cov["rule"] = ("every derivation x random all-site re-spellings + END_IF without semicolon; every keyword / literal prefix / "
